@@ -311,3 +311,7 @@ mod tests {
         assert_eq!(result.len(), 0);
     }
 }
+
+#[cfg(all(test, pendulum_project_ntpd_rs_verif))]
+#[path = "/verif/harness/ntp-proto/hook_algorithm__kalman__select.rs"]
+mod verif_hook;
